@@ -26,6 +26,7 @@
 (*   7 funds of the new term                          [appropriation hist.]*)
 (*                                                                         *)
 (* C22: RollbackTo(t) gives the state after block t (hist[t]).             *)
+(* C23: CheckpointRestore (checkpoint, restore from it) is the identity.   *)
 (* C29: the invariants of Proposal.tla hold in every reachable state.      *)
 (***************************************************************************)
 EXTENDS Proposal, Json
@@ -47,10 +48,11 @@ CONSTANTS MemberCount, VotingPeriod, ClaimPeriod, DutyPeriod, Lockup, ActivateDu
 VARIABLES s,       \* committee state (record, see Genesis)
           hist,    \* hist[i] = <<height, state after that height>>, most recent RollDepth+1 entries
           nsteps, nrolls,
+          pc,      \* > 0: index of the next start-state block still to be processed, 0: started
           log      \* history variable: the behaviour, for replay
 
-vars == <<s, hist, nsteps, nrolls, log>>
-view == <<s, hist, nsteps, nrolls>>
+vars == <<s, hist, nsteps, nrolls, pc, log>>
+view == <<s, hist, nsteps, nrolls, pc>>
 
 NoC == 0
 Sessions == 0..MaxSession
@@ -388,12 +390,6 @@ Preamble ==
                                   FirstTerm \o OneProposal \o Empty(2) \o <<ForAllCRs("RegisterCR", "")>> \o Empty(4)
       [] OTHER -> <<>>
 
-RECURSIVE Run(_, _)
-Run(st, blocks) == IF blocks = <<>> THEN st
-                   ELSE Run(ProcessBlock(st, st.h + 1, Head(blocks)), Tail(blocks))
-
-StartState == Run(Genesis, Preamble)
-
 ---------------------------------------------------------------------------
 (* Transactions offered to a block *)
 
@@ -422,13 +418,14 @@ TxAlphabet ==
     \cup (IF "Claim" \in Kinds THEN {[TC("Claim", c) EXCEPT !.x = x] : c \in CRs, x \in {"cur", "next"}} ELSE {})
     \cup (IF "ReturnDeposit" \in Kinds THEN {TC("ReturnDeposit", c) : c \in CRs} ELSE {})
 
-\* what a transaction is about (pairs in one block are explored when they
-\* touch the same thing: that is where the per-block rule matters)
-Related(a, b) == \/ a.p # NoProp /\ a.p = b.p
-                 \/ a.p = NoProp /\ b.p = NoProp /\ a.c # NoC /\ a.c = b.c
-                 \/ a.k \in {"Proposal", "Close"} /\ b.k \in {"Proposal", "Close"}
-                 \/ a.v # NoC /\ a.v = b.v
-                 \/ a.k \in {"RealWithdraw", "Approp"} \/ b.k \in {"RealWithdraw", "Approp"}
+\* Pairs in one block are explored when both transactions concern the same
+\* proposal, the same CR or the same stake address, or both register a
+\* proposal: that is where the per-block rule (pre-block validation) matters.
+Groups(e) ==
+    {{x \in e : x.p = p} : p \in Props}
+    \cup {{x \in e : x.p = NoProp /\ x.c = cr} : cr \in CRs}
+    \cup {{x \in e : x.v = v} : v \in Voters}
+    \cup {{x \in e : x.k \in {"Proposal", "Close"}}}
 
 \* one Voting transaction per stake address per block (vote-right accounting
 \* of several votes in one block is not modelled here)
@@ -455,10 +452,13 @@ BlockChoices(st) ==
     LET e == Enabled1(st) IN
       {<<>>} \cup {<<a>> : a \in e}
       \cup (IF MaxTx >= 2
-            THEN {q \in {<<a, b>> : a \in e, b \in e} :
+            THEN {q \in UNION {{<<a, b>> : a \in g, b \in g} : g \in Groups(e)} :
                      /\ q[1] # q[2] \/ q[1].k \in {"Withdraw", "Tracking"}
-                     /\ Related(q[1], q[2]) /\ OneVotePerVoter(q) /\ OneRegistration(q)
-                     /\ BlockAdmitted(st, st.h + 1, q)}
+                     /\ OneVotePerVoter(q) /\ OneRegistration(q)
+                     \* both are admitted alone; together: the duplicate rule, and the
+                     \* budgets asked by the first count against the second
+                     /\ DupFree(q)
+                     /\ (q[2].k = "Proposal" => Accepts(st, st.h + 1, q[2], BudgetBefore(q, 2)))}
             ELSE {})
 
 ---------------------------------------------------------------------------
@@ -472,46 +472,100 @@ Verdicts(st) ==
      cap   |-> IF ProposalAllowed(st, st.h) THEN ProposalCap(st) ELSE 0,
      room  |-> IF ProposalAllowed(st, st.h) THEN ProposalRoom(st, 0) ELSE 0]
 
-Compact(st) == st
+\* the state as logged: positional, spec-only bookkeeping (nickname counter,
+\* order numbers, the paid / cover ledgers, deposit totals) left out
+Compact(st) ==
+    [h |-> st.h,
+     cand |-> [c \in CRs |-> <<st.cand[c].st, st.cand[c].votes, st.cand[c].regH, st.cand[c].cancelH, st.cand[c].nick>>],
+     dep  |-> [c \in CRs |-> <<st.dep[c].known, st.dep[c].locked>>],
+     mem  |-> [c \in CRs |-> <<st.mem[c].st, st.mem[c].imp, st.mem[c].key, st.mem[c].pbc>>],
+     next |-> [c \in CRs |-> <<st.next[c].in, st.next[c].key>>],
+     hmem |-> st.hmem, hcand |-> st.hcand,
+     per  |-> <<st.lch, st.lvsh, st.inElect, st.session, st.needApp>>,
+     fund |-> <<st.fbal, st.cbal, st.used, st.stage, st.approp, st.usedSnap>>,
+     uCR |-> st.uCR, uImp |-> st.uImp, uRej |-> st.uRej,
+     prop |-> [p \in Props |->
+                 LET q == st.prop[p] IN
+                   <<q.st, q.kind, q.target, q.bud, q.bst, q.wable, q.wdrawn, q.owner, q.sponsor, q.crv, q.rej,
+                     q.regH, q.vsH, q.tcount, q.fps, q.termH, q.sess>>],
+     pend |-> {<<o.n, o.p, o.amt>> : o \in st.pend}]
 
 LogStep(act, args) ==
     log' = Append(log, [act |-> act, args |-> args, st |-> Compact(s'), vd |-> Verdicts(s')])
 
-\* (the start-state blocks are printed once for the replay driver)
+StartLog(st) == <<[act |-> "Start", args |-> [scenario |-> Scenario], st |-> Compact(st), vd |-> Verdicts(st)]>>
+
+\* The start state is reached by processing the blocks of Preamble from Genesis,
+\* one step each (not part of the logged behaviour; the blocks are printed once
+\* for the replay driver).
 Init == /\ PrintT(<<"PREAMBLE", ToJson(Preamble)>>)
-        /\ s = StartState
-        /\ hist = <<<<StartState.h, StartState>>>>
+        /\ s = Genesis
         /\ nsteps = 0 /\ nrolls = 0
-        /\ log = <<[act |-> "Start", args |-> [scenario |-> Scenario], st |-> Compact(StartState),
-                    vd |-> Verdicts(StartState)]>>
+        /\ IF Preamble = <<>>
+           THEN pc = 0 /\ hist = <<<<0, Genesis>>>> /\ log = StartLog(Genesis)
+           ELSE pc = 1 /\ hist = <<>> /\ log = <<>>
+
+PreStep ==
+    /\ pc > 0
+    /\ s' = ProcessBlock(s, s.h + 1, Preamble[pc])
+    /\ IF pc = Len(Preamble)
+       THEN pc' = 0 /\ hist' = <<<<s.h + 1, s'>>>> /\ log' = StartLog(s')
+       ELSE pc' = pc + 1 /\ UNCHANGED <<hist, log>>
+    /\ UNCHANGED <<nsteps, nrolls>>
 
 Push(hs, e) == LET q == Append(hs, e) IN
                IF Len(q) > RollDepth + 1 THEN SubSeq(q, Len(q) - RollDepth, Len(q)) ELSE q
 
 \* txs ranges over BlockChoices(s) (see Next)
 Block(txs) ==
-    /\ nsteps < MaxSteps
+    /\ pc = 0 /\ nsteps < MaxSteps
     /\ s' = ProcessBlock(s, s.h + 1, txs)
     /\ hist' = Push(hist, <<s.h + 1, s'>>)
     /\ nsteps' = nsteps + 1
-    /\ UNCHANGED nrolls
+    /\ UNCHANGED <<nrolls, pc>>
     /\ LogStep("Block", [h |-> s.h + 1, txs |-> txs,
                          ok |-> [i \in 1..Len(txs) |-> RuleAllows(txs, i)]])
 
 \* Committee.RollbackTo(t): the state after block t
 Rollback(i) ==
-    /\ nsteps < MaxSteps /\ nrolls < MaxRollbacks
+    /\ pc = 0 /\ nsteps < MaxSteps /\ nrolls < MaxRollbacks
     /\ i \in 1..(Len(hist) - 1)
     /\ hist[i][1] >= VotingStart      \* the committee does not exist below (RollbackTo(0) does not terminate)
     /\ s' = hist[i][2]
     /\ hist' = SubSeq(hist, 1, i)
-    /\ nsteps' = nsteps + 1 /\ nrolls' = nrolls + 1
+    /\ nsteps' = nsteps + 1 /\ nrolls' = nrolls + 1 /\ UNCHANGED pc
     /\ LogStep("Rollback", [t |-> hist[i][1]])
 
-Next == \/ \E txs \in BlockChoices(s) : Block(txs)
-        \/ \E i \in 1..(Len(hist) - 1) : Rollback(i)
+\* C23: taking the committee checkpoint and restoring a committee from it
+\* (Checkpoint.Snapshot -> Serialize -> Deserialize -> Committee.Recover) is the
+\* identity on the state.  The change histories are gone afterwards: nothing
+\* below the checkpoint can be rolled back to.
+Snapshot(st) == st
+Restore(cp) == cp
+CheckpointRestore ==
+    /\ pc = 0 /\ nsteps < MaxSteps /\ "Checkpoint" \in Kinds
+    /\ s' = Restore(Snapshot(s))
+    /\ hist' = <<<<s.h, s'>>>>
+    /\ nsteps' = nsteps + 1 /\ UNCHANGED <<nrolls, pc>>
+    /\ LogStep("Checkpoint", [h |-> s.h])
+
+Next == \/ PreStep
+        \/ CheckpointRestore
+        \/ pc = 0 /\ \E txs \in BlockChoices(s) : Block(txs)
+        \/ pc = 0 /\ \E i \in 1..(Len(hist) - 1) : Rollback(i)
 
 Spec == Init /\ [][Next]_vars
+
+\* Random walks for -simulate: one successor per step, drawn by TLC's seeded
+\* generator (a rollback about every sixth step).
+SimNext ==
+    IF pc > 0 THEN PreStep ELSE
+    LET rb == {i \in 1..(Len(hist) - 1) : hist[i][1] >= VotingStart} IN
+      IF rb # {} /\ nrolls < MaxRollbacks /\ RandomElement(1..6) = 1
+      THEN Rollback(RandomElement(rb))
+      ELSE IF "Checkpoint" \in Kinds /\ RandomElement(1..8) = 1 THEN CheckpointRestore
+      ELSE Block(RandomElement(BlockChoices(s)))
+SimSpec == Init /\ [][SimNext]_vars
 
 ---------------------------------------------------------------------------
 (* Properties *)
@@ -524,7 +578,11 @@ TypeOK ==
 
 \* C22, model side: the newest history entry is the current state and a
 \* rollback lands on a state that was the state after that height
-HistConsistent == hist[Len(hist)][2] = s /\ hist[Len(hist)][1] = s.h
+HistConsistent == pc = 0 => (hist[Len(hist)][2] = s /\ hist[Len(hist)][1] = s.h)
+
+\* C23 (CR part): a checkpoint / restore step changes nothing
+CheckpointLossless ==
+    [][(Len(log') > Len(log) /\ log'[Len(log')].act = "Checkpoint") => s' = s]_vars
 
 \* C29
 C29PaidWithinApproved == PaidWithinApproved(s)
@@ -540,6 +598,6 @@ DepositSane == \A c \in CRs : s.dep[c].locked >= 0
 VotesSane == \A c \in CRs : s.cand[c].votes >= 0 /\ s.mem[c].imp >= 0
 MembersSane == Cardinality({m \in CRs : s.mem[m].st # "None"}) \in {0, MemberCount}
 
-Emit == PrintT(<<"TRACE", ToJson(log')>>)
+Emit == (pc' = 0 /\ nsteps' > 0) => PrintT(<<"TRACE", ToJson(log')>>)
 EmitLast == (nsteps' = MaxSteps) => PrintT(<<"TRACE", ToJson(log')>>)
 =============================================================================
